@@ -180,3 +180,27 @@ package idxfile
 //gvc:  requires nn: w != nil
 //gvc:  ensures flag: result == w.finished
 //gvc:end
+
+// Object ids handed out by the in-memory index (C10: every implementation
+// answers identically and agrees with a plain map keyed by the ids): an id is
+// built from exactly one name of the bucket -- idSize() bytes -- never from the
+// rest of the bucket, whose first bytes would land behind the 20 significant
+// bytes of a SHA-1 id and make it a different value and a different map key.
+//gvc:func (*idxfileEntryIter).Next
+//gvc:  props C10
+//gvc:  theory int
+//gvc:  opt coarse
+//gvc:  opt frame args
+//gvc:  loop 1 invariant pos: true
+//gvc:  sink Write requires onename: len(arg0) == ite(i.idx.objectIDSize != 0, i.idx.objectIDSize, 20)
+//gvc:end
+
+//gvc:func (*MemoryIndex).genOffsetHash
+//gvc:  props C10
+//gvc:  theory int
+//gvc:  opt coarse
+//gvc:  opt frame args
+//gvc:  loop 1 invariant pos: it1 >= 0
+//gvc:  loop 2 invariant pos: true
+//gvc:  sink Write requires onename: len(arg0) == ite(idx.objectIDSize != 0, idx.objectIDSize, 20)
+//gvc:end
